@@ -14,8 +14,17 @@ use crate::outcome::Outcome;
 use crate::spec::*;
 
 /// the first WHOLE_UTF8 entries are valid UTF-8
-const WHOLE_UTF8: usize = 14;
+const WHOLE_UTF8: usize = 21;
 const WHOLE_VALUES: &[&[u8]] = &[
+    // non-ASCII text in front of, around and after `=` (multi-byte characters next to the
+    // byte-level split points of the tokenizer)
+    b"\xc3\xb1=x",
+    b"\xe5\x8f\xa3\xe6\xb0\xb4=\xe8\xbe\xa3",
+    b"\xc3\xa9=",
+    b"=\xc3\xa9",
+    b"\xc3\xb1=x=y",
+    b"x=\xc3\xb1",
+    b"\xc3\xa9 \xc3\xa9",
     b"",
     b"=",
     b"a=b",
